@@ -165,6 +165,14 @@ func runC11(t *testing.T, p *Plan) *Outcome {
 					}
 					continue
 				}
+				if u := users[who[c]]; u != nil && !u.enabled {
+					// "a deleted or disabled user can no longer act": its sessions are denied until it is enabled again
+					g := conns[c].DoSync("GET", "probe")
+					if !r.IsError() || !g.IsError() {
+						fail("identity/disabled-acts", fmt.Sprintf("after step %d (%s): connection %d is a session of the disabled user %q but ACL WHOAMI answered %s and GET answered %s", step, what, c, who[c], r, g))
+					}
+					continue
+				}
 				if r.IsError() || r.Reply.Text() != who[c] {
 					fail("identity/whoami", fmt.Sprintf("after step %d (%s): connection %d is authenticated as %q but ACL WHOAMI answered %s %s", step, what, c, who[c], r, r.Reply.Str))
 					continue
